@@ -55,6 +55,8 @@ type Exec struct {
 
 	strTheory bool
 	usesAlloc bool
+	dirty     map[string]bool // heap keys written other than at objects allocated by this function
+	dirtyAll  bool
 	usesReal  bool
 	entry     *State
 	exitEdges []inEdge
@@ -114,6 +116,9 @@ func (x *Exec) initMaps() {
 	x.matchedCalls = map[string]bool{}
 	x.pureFuncs = map[string]bool{}
 	x.skippedEnsures = map[string]bool{}
+	if x.dirty == nil {
+		x.dirty = map[string]bool{}
+	}
 	x.escaped = map[*ssa.Alloc]bool{}
 	x.freshBytes = map[string]bool{}
 	x.detExt = map[string]bool{}
